@@ -428,9 +428,37 @@ class HslAccess(SubCheck):
         return out
 
 
+def stale_check(svg, tier):
+    """every reading accessor after every writing accessor (a reading that is memoised must be dropped by every writer)"""
+    from props import stale
+    sources = {"color-translucent": lambda: svg.Color("#336699cc"), "color-grey": lambda: svg.Color("#80808080"),
+               "color-opaque": lambda: svg.Color("rgb(200, 30, 90)")}
+    reads = ["hex", "hexa", "hexrgb", "rgb", "rgba", "argb", "bgr", "red", "green", "blue", "alpha", "opacity", "hue", "saturation",
+             "lightness", "hsl", "value"]
+    measures = {r: (lambda r: (lambda o: getattr(o, r)))(r) for r in reads}
+    measures["str"] = lambda o: str(o)
+    measures["repr"] = lambda o: repr(o)
+    measures["==copy"] = lambda o: svg.Color(o.hexa) == o
+    muts = {}
+    for k, v in (("red", 17), ("green", 34), ("blue", 51), ("alpha", 68), ("opacity", 0.25), ("hue", 200.0), ("saturation", 0.25),
+                 ("lightness", 0.75), ("rgb", 0x102030), ("rgba", 0x10203040), ("argb", 0x40102030), ("bgr", 0x302010),
+                 ("hsl", (0.4, 0.5, 0.6)), ("hexrgb", "#a1b2c3"), ("hex", "#0a0b0c0d"), ("value", 0x11223344)):
+        def mk(k, v):
+            def f(o):
+                try:
+                    setattr(o, k, v)
+                except AttributeError:      # read-only accessor
+                    raise stale.c18.NotApplicable()
+            return f
+        muts["%s=" % k] = mk(k, v)
+    muts["blend"] = lambda o: o.blend(svg.Color("#ff000080")) if hasattr(o, "blend") else stale.c18._na()
+    return stale.Stale(svg, measures, kinds=[], extra_sources=sources, only_mutations=[], extra_mutations=muts,
+                       depth=2 if tier == "thorough" else 1)
+
+
 def build(tier, seed, svg):
     return [Keywords(svg), ShortHex(svg), LongHex(svg, tier), RgbFunc(svg), HslFunc(svg), Setters(svg),
-            Packings(svg, tier), HslAccess(svg)]
+            Packings(svg, tier), HslAccess(svg), stale_check(svg, tier)]
 
 
 MATCHERS = {}
